@@ -199,6 +199,19 @@ pub fn bp(seed: u64) -> Program {
             let _ = held;
             main.push(Op::Open { gate: 0, n: 1_000_000 });
             main.push(Op::Settle);
+            // a subscriber that arrives after the bursts (and whatever they evicted) is told about
+            // everything dispatched from then on
+            if g.rng.chance(40) {
+                subs.push(sub_direct());
+                main.push(Op::AddSub { store: 0, sub: subs.len() - 1, reg: regs });
+                regs += 1;
+                for _ in 0..g.rng.range(1, 3) {
+                    let a = simple(&mut g);
+                    let via = g.via();
+                    main.push(Op::Dispatch { store: 0, act: a, via });
+                    main.push(Op::Settle);
+                }
+            }
         }
         // (B) BlockOnFull with producer threads, one step at a time
         3..=5 => {
